@@ -271,15 +271,21 @@ class FileInspector(abc.ABC):
         # data
         self._capture(chunk)
 
-        # Let the format do some post-read processing of the stream
-        self.post_process()
-
-        # Check to see if the post-read processing added new regions
-        # which may require the current chunk.
-        new_regions = set(self._capture_regions.values()) - pre_regions
-        if new_regions:
+        # Let the format do some post-read processing of the stream.
+        # If that added new regions, they may require the current chunk,
+        # and once they have it they may in turn allow further regions to
+        # be located (e.g. a table and the item it points to arriving in
+        # the same read), so repeat until no new region shows up.
+        seen_regions = pre_regions
+        while True:
+            self.post_process()
+            regions = set(self._capture_regions.values())
+            new_regions = regions - seen_regions
+            if not new_regions:
+                break
             self._capture(chunk, only=[self.region_name(r)
                                        for r in new_regions])
+            seen_regions = regions
 
         post_complete = {region for region in self._capture_regions.values()
                          if region.complete}
